@@ -154,6 +154,19 @@ CHECKS = {
         note="Cylinder/sphere/Rege-Yang potentials use int() and 2000-term series on the width and are outside the symbolic engine; "
              "minimiser convergence is assumed at contract level and only sampled in the bounded part.",
         technique="sympy polynomial identity on the captured closure + symbolic execution of the solver wrappers; bounded runs of the real code"),
+    'C15': dict(
+        category='proof',
+        text="Call-protocol obligation per characterisation entry point (area_BET, area_langmuir, t_plot, alpha_s, dr_plot, da_plot, "
+             "psd_mesoporous, psd_microporous, psd_dft; isosteric_enthalpy and Whittaker in C19): every accessor call that feeds the result "
+             "names a complete target representation and no stored pressure/loading label is read; with the accessor contract proved in "
+             "C03 this yields invariance for all stored representations at once. The scaling clause is proved relationally on the real "
+             "area_BET_raw / area_langmuir_raw / t_plot_raw (extensive results x k, intensive unchanged) with the linregress scaling "
+             "lemma. A bounded stand-in recomputes every entry point after converting real isotherms (and a reference isotherm, and a "
+             "JSON round trip) and compares numerically; Henry constants must change by the exact unit factor.",
+        design_ref='§3 C15',
+        note="Protocol observed on a recorded run over sample isotherms (entry points have no data-dependent accessor calls); depends on "
+             "C03 contracts; numerical invariance is bounded (1 isotherm x 7 conversions quick). Known finding: alpha_s reference look-up.",
+        technique="call-protocol contracts (recording subclass) + relational symbolic execution for scaling; bounded numeric invariance"),
 }
 
 NOT_YET = {
